@@ -59,8 +59,17 @@ func (p *Paragraph) WriteTo(out io.Writer) error {
 	for _, key := range p.Order {
 		value := p.Values[key]
 
-		value = strings.Replace(value, "\n", "\n ", -1)
-		value = strings.Replace(value, "\n \n", "\n .\n", -1)
+		/* One trailing newline (every folded value the reader produces has
+		 * one) ends the last line; it does not start another. Each further
+		 * line is a continuation line, an empty one is written as " .". */
+		lines := strings.Split(strings.TrimSuffix(value, "\n"), "\n")
+		for i, line := range lines[1:] {
+			if line == "" {
+				line = "."
+			}
+			lines[i+1] = " " + line
+		}
+		value = strings.Join(lines, "\n")
 
 		if _, err := out.Write(
 			[]byte(fmt.Sprintf("%s: %s\n", key, value)),
